@@ -98,12 +98,85 @@ MUTATORS = {'append', 'extend', 'insert', 'pop', 'remove', 'clear', 'update', 'p
 VALUE_CLASSES = {'Transaction', 'Order', 'PortfolioEvent', 'Position', 'SimulationEvent', 'Equity', 'Cash'}
 
 
-def _lifter(proj):
+def derived_exprs(M):
+    """{D: term over ('attr', ('var', '@obj'), A)} for stored figures that are, by a class invariant, a function of other fields of the same object:
+    the constructor of a class stores its parameters unchanged in fields A.. and computes `self.D = f(...)` from them, D is assigned nowhere else except by
+    methods that recompute it the same way, and every writer of an A recomputes D (lib.stale_derived_values reports the ones that do not - with a stale writer the
+    invariant is void and D is left alone).  Reading X.D is then reading f(X.A..).  Only names that are fields of one class in the whole package qualify."""
+    if getattr(M, '_derived_exprs', None) is not None:
+        return M._derived_exprs
+    M._derived_exprs = {}
+    out = {}
+    from .lib import derived_fields, stale_writers
+    all_fields = {}
+    for c in M.classes.values():
+        for m in c.methods.values():
+            for n in ast.walk(m.node):
+                if isinstance(n, ast.Attribute) and isinstance(n.ctx, ast.Store) and isinstance(n.value, ast.Name) and n.value.id == 'self':
+                    all_fields.setdefault(n.attr, set()).add(c.name)
+    for c in M.classes.values():
+        init = c.methods.get('__init__')
+        if init is None:
+            continue
+        der = derived_fields(M, c)
+        if not der:
+            continue
+        try:
+            ps = [p for p in SymEx(M, policy=default_policy).run(init, dyn=c) if p.outcome in ('fall', 'return')]
+        except Undecided:
+            continue
+        if len(ps) != 1:
+            continue
+        heap = ps[0].heap
+        stored = {}
+        for k, v in heap.items():
+            if k[0] == 'attr' and k[1] == ('var', 'self') and v[0] == 'var' and v[1] in init.params:
+                stored.setdefault(v, k[2])
+        for D, (deps, refreshers, only_elem) in der.items():
+            if only_elem or all_fields.get(D) != {c.name} or stale_writers(M, c, D):
+                continue
+            v = heap.get(('attr', ('var', 'self'), D))
+            if v is None:
+                continue
+            vars_ = {s for s in T.subterms(v) if s[0] == 'var'}
+            if not vars_ or not all(s in stored for s in vars_) or any(s[0] in ('call',) and s[1][0] == 'fn' for s in T.subterms(v)):
+                continue
+            # only plain figures: arithmetic over the stored parameters (a container or a library object initialised from fields is state of its own, not a function)
+            arith = {'ROUND', 'ABS', 'INT', 'FLOAT', 'FLOOR', 'CEIL', 'TRUNC', 'MIN', 'MAX', 'COPYSIGN', 'SIGN', 'SQRT'}
+            if v[0] == 'var' or not all(s[0] in ('rat', 'num', 'var', 'ite', 'cmp', 'not', 'and', 'or', 'const') or (s[0] == 'call' and s[1][0] == 'ext' and s[1][1] in arith) or s[0] == 'ext'
+                                        for s in T.subterms(v)):
+                continue
+            # a D that something outside the class's module assigns is not under the class's control
+            outside = False
+            for fn in M.all_funcs():
+                if fn.path == c.path:
+                    continue
+                for n in ast.walk(fn.node):
+                    if isinstance(n, ast.Attribute) and isinstance(n.ctx, ast.Store) and (n.attr == D or n.attr in deps):
+                        tys = M.expr_types(fn, n.value, M.local_env(fn))
+                        if not tys or c.name in tys:
+                            outside = True
+            if outside:
+                continue
+            out[D] = T.replace(v, lambda z: ('attr', ('var', '@obj'), stored[z]) if z in stored else None)
+    M._derived_exprs = out
+    return out
+
+
+def _lifter(proj, derived=None):
     by_last = {}
     for chain, (cname, pname) in proj.items():
         by_last.setdefault(chain[-1], []).append((chain, cname, pname))
+    derived = derived or {}
 
     def f(z):
+        if z[0] == 'attr' and z[2] in derived and z[1][0] != 'new':
+            # a derived stored figure is the function of its object's fields that the class keeps it equal to
+            obj = z[1]
+            return T.replace(T.replace(derived[z[2]], lambda y: obj if y == ('var', '@obj') else None), fp)
+        return fp(z)
+
+    def fp(z):
         if z[0] == 'attr' and z[2] in by_last:
             for chain, cname, pname in by_last[z[2]]:
                 x, ok = z, True
@@ -132,9 +205,9 @@ def _lifter(proj):
     return f
 
 
-def lift_path(p, proj, _f=None):
+def lift_path(p, proj, _f=None, derived=None):
     """rewrite every stored location that a property projects (self._bought.quantity) into the property it stands for (self.buy_quantity), throughout a path summary"""
-    f = _f or _lifter(proj)
+    f = _f or _lifter(proj, derived)
     L = lambda t: T.replace(t, f) if isinstance(t, tuple) and t and isinstance(t[0], str) else t
 
     def lift_events(evs):
@@ -349,9 +422,9 @@ class SymEx:
             out.append(p)
         for p in out:
             p.outer_env = outer_env
-        if not self.frames and self.M.projections():
+        if not self.frames and (self.M.projections() or derived_exprs(self.M)):
             for p in out:
-                lift_path(p, self.M.projections())
+                lift_path(p, self.M.projections(), derived=derived_exprs(self.M))
         return out
 
     def _resolve_dyn(self, call_node, st):
@@ -712,10 +785,10 @@ class SymEx:
         k = T.tkey(t)
         if k in st.decided:
             return [(st, st.decided[k])]
-        if self.oracle and self.M.projections():
+        if self.oracle and (self.M.projections() or derived_exprs(self.M)):
             # the oracle speaks about logical fields: show it the test with stored locations lifted to the properties that project them
             if getattr(self, '_lift_f', None) is None:
-                self._lift_f = _lifter(self.M.projections())
+                self._lift_f = _lifter(self.M.projections(), derived_exprs(self.M))
             b = self.oracle(T.replace(t, self._lift_f), st)
         else:
             b = self.oracle(t, st) if self.oracle else None
